@@ -109,3 +109,16 @@ Definition run_piecedl (inp : list Z) : list Z :=
       end
   | _ => [-779]
   end.
+
+(* ---- the verifier (internal/verifier): in = [np (short equal)*np] ---- *)
+Fixpoint ver_pairs (l : list Z) : list (bool * bool) :=
+  match l with s :: e :: r => (z2b s, z2b e) :: ver_pairs r | _ => [] end.
+(* a read that hits the end of a file is an error of the whole verification; otherwise a piece is
+   marked exactly when its bytes on disk are the content *)
+Definition run_verifier (inp : list Z) : list Z :=
+  match inp with
+  | np :: r =>
+      let ps := firstn (Z.to_nat np) (ver_pairs r) in
+      if existsb fst ps then [1] else 0 :: map (fun p => b2z (snd p)) ps
+  | [] => [-779]
+  end.
